@@ -436,7 +436,7 @@ impl Prop for C20 {
     }
     fn plan(&self, tier: Tier) -> Plan {
         match tier {
-            Tier::Quick => Plan { runs: 240, time_box_s: None, isolation: Isolation::Threads },
+            Tier::Quick => Plan { runs: 400, time_box_s: None, isolation: Isolation::Threads },
             Tier::Thorough => Plan { runs: 40_000, time_box_s: Some(420), isolation: Isolation::Threads },
         }
     }
